@@ -7,6 +7,7 @@
 package main
 
 import (
+	"context"
 	"encoding/json"
 	"fmt"
 	"math/rand"
@@ -339,6 +340,180 @@ func runCase(c jcase, rep *batch.Report) batch.CaseResult {
 	return res
 }
 
+// stress: lookups must keep returning on nodes whose predecessor is being dropped and re-learnt
+// (Notify really replaces the pointer) while KV requests run on them.
+type scase struct {
+	Name string `json:"name"`
+	Seed int64  `json:"seed"`
+	N    int    `json:"n"`
+	NetV bool   `json:"netv"`
+}
+
+func blockedInChord() string {
+	buf := make([]byte, 16<<20)
+	buf = buf[:runtime.Stack(buf, true)]
+	for _, g := range strings.Split(string(buf), "\n\n") {
+		if strings.Contains(g, "specter/chord.(*LocalNode).") && (strings.Contains(g, "sync.(*RWMutex).") || strings.Contains(g, "sync.(*Mutex).")) && (strings.Contains(g, "[sync.RWMutex.") || strings.Contains(g, "[sync.Mutex.") || strings.Contains(g, "[semacquire")) {
+			if len(g) > 3000 {
+				g = g[:3000]
+			}
+			return g
+		}
+	}
+	return ""
+}
+
+func runStress(raw json.RawMessage) (any, error) {
+	var cases []scase
+	if err := json.Unmarshal(raw, &cases); err != nil {
+		return nil, err
+	}
+	rep := &batch.Report{}
+	prog := batch.OpenProgress()
+	for _, c := range cases {
+		prog.Begin(c.Name, c)
+		res := runStressCase(c, rep)
+		prog.Done(res)
+		rep.Add(res)
+	}
+	return rep, nil
+}
+
+func runStressCase(c scase, rep *batch.Report) batch.CaseResult {
+	res := batch.CaseResult{Name: c.Name}
+	mode := ringlab.Direct
+	if c.NetV {
+		mode = ringlab.NetV
+	}
+	lab := ringlab.New(ringlab.Options{Mode: mode, Seed: c.Seed, Stabilize: 2 * time.Millisecond, FixFinger: 5 * time.Millisecond, PredecessorCheck: 7 * time.Millisecond})
+	defer lab.Close()
+	rng := rand.New(rand.NewSource(c.Seed))
+	var members []*ringlab.Member
+	used := map[uint64]bool{}
+	for i := 0; i < c.N; i++ {
+		id := rng.Uint64() % M
+		for used[id] {
+			id = rng.Uint64() % M
+		}
+		used[id] = true
+		m, err := lab.Spawn(id, ringlab.Memory)
+		if err != nil {
+			res.Inconclusive = err.Error()
+			return res
+		}
+		if i == 0 {
+			m.Create()
+		} else {
+			var jerr error
+			for a := 0; a < 5; a++ {
+				if jerr = m.Join(members[rng.Intn(len(members))]); jerr == nil {
+					break
+				}
+				time.Sleep(10 * time.Millisecond)
+			}
+			if jerr != nil {
+				lab.StopAll()
+				res.Inconclusive = "setup join: " + jerr.Error()
+				return res
+			}
+		}
+		members = append(members, m)
+	}
+	defer lab.StopAll()
+	if cv := lab.WaitConverged(int64(6*c.N+20), time.Minute, false); !cv.Converged {
+		res.Inconclusive = "setup ring did not stabilise: " + cv.Diff
+		return res
+	}
+	stop := make(chan struct{})
+	var wg sync.WaitGroup
+	var kvOps, drops, lookups atomic.Int64
+	for g := 0; g < 2*c.N; g++ {
+		wg.Add(1)
+		go func(seed int64) {
+			defer wg.Done()
+			r := rand.New(rand.NewSource(seed))
+			for {
+				select {
+				case <-stop:
+					return
+				default:
+				}
+				m := members[r.Intn(len(members))]
+				k := []byte(fmt.Sprintf("c09-stress-%d", r.Intn(16)))
+				if r.Intn(3) == 0 {
+					_ = m.Node.Put(context.Background(), k, []byte("v"))
+				} else {
+					_, _ = m.Node.Get(context.Background(), k)
+				}
+				kvOps.Add(1)
+			}
+		}(c.Seed + int64(g)*7919)
+	}
+	wg.Add(1)
+	go func() {
+		defer wg.Done()
+		r := rand.New(rand.NewSource(c.Seed ^ 0x5eed))
+		for {
+			select {
+			case <-stop:
+				return
+			case <-time.After(time.Duration(200+r.Intn(1500)) * time.Microsecond):
+			}
+			// what checkPredecessor does after a failure: the next stabilize round of the real
+			// predecessor makes Notify install it again
+			members[r.Intn(len(members))].Node.VerifClearPredecessor()
+			drops.Add(1)
+		}
+	}()
+	time.Sleep(300 * time.Millisecond) // workload duration only
+	close(stop)
+	fin := make(chan struct{})
+	go func() { wg.Wait(); close(fin) }()
+	wedged := ""
+	select {
+	case <-fin:
+	case <-time.After(45 * time.Second):
+		wedged = "the KV requests issued during the workload had not returned 45 s after it ended"
+	}
+	if wedged == "" {
+		// every member still answers lookups
+		done := make(chan struct{})
+		go func() {
+			for _, m := range members {
+				for k := 0; k < 8; k++ {
+					_, _ = m.Node.FindSuccessor(rng.Uint64() % M)
+					lookups.Add(1)
+				}
+			}
+			close(done)
+		}()
+		select {
+		case <-done:
+		case <-time.After(45 * time.Second):
+			wedged = "lookups issued to the members after the workload had not returned after 45 s"
+		}
+	}
+	rep.Count("stress_kv_requests", kvOps.Load())
+	rep.Count("stress_predecessor_drops", drops.Load())
+	rep.Count("stress_lookups_after_workload", lookups.Load())
+	if wedged != "" {
+		g := blockedInChord()
+		if g == "" {
+			res.Inconclusive = "watchdog: " + wedged + ", and no request is blocked on a lock of a node"
+			lab.Abandon()
+			return res
+		}
+		lab.Abandon()
+		res.Violations = append(res.Violations, batch.Viol{Key: "lookup-blocked-for-good:predecessor-relearnt-under-kv-traffic", What: fmt.Sprintf("ring of %d nodes, predecessors dropped and re-learnt while KV requests run: %s; a goroutine is blocked acquiring a lock of a node and nothing will release it", c.N, wedged), Witness: map[string]any{"case": c, "blocked_goroutine": g}})
+		res.Sig = fmt.Sprintf("stress/n%d/netv=%v/blocked", c.N, c.NetV)
+		return res
+	}
+	if kvOps.Load() > 0 && drops.Load() > 0 {
+		res.Sig = fmt.Sprintf("stress/n%d/netv=%v", c.N, c.NetV)
+	}
+	return res
+}
+
 func sortU(a []uint64) []uint64 {
 	for i := 1; i < len(a); i++ {
 		for j := i; j > 0 && a[j] < a[j-1]; j-- {
@@ -350,9 +525,10 @@ func sortU(a []uint64) []uint64 {
 
 func main() {
 	child.Register("cases", runCases)
+	child.Register("stress", runStress)
 	child.Main()
 	r := ev.Start("C09", "exploration")
-	r.SetRule("a node joins a stabilised ring of 1..8 real LocalNodes (random / adjacent / extreme ids, direct and proxied wiring); at the first occurrence of each of the 8 hook points of its join the join is blocked and 3 x (8+3N) lookups {0, 2^48-1, joiner id +-1, member ids +-1, PRNG ids} are issued concurrently to the joiner, its successor and its predecessor; periodic tasks are parked during the probed join (pointers move only through the join's own steps); in a third of the cases 1-2 other members have dropped their predecessor pointer beforehand (the state checkPredecessor leaves after a departure); distinct+non-trivial = (hook point, ring size, id layout, wiring, dropped predecessors) for cases in which the hook was reached")
+	r.SetRule("a node joins a stabilised ring of 1..8 real LocalNodes (random / adjacent / extreme ids, direct and proxied wiring); at the first occurrence of each of the 8 hook points of its join the join is blocked and 3 x (8+3N) lookups {0, 2^48-1, joiner id +-1, member ids +-1, PRNG ids} are issued concurrently to the joiner, its successor and its predecessor; periodic tasks are parked during the probed join (pointers move only through the join's own steps); in a third of the cases 1-2 other members have dropped their predecessor pointer beforehand (the state checkPredecessor leaves after a departure); distinct+non-trivial = (hook point, ring size, id layout, wiring, dropped predecessors) for cases in which the hook was reached; plus stress executions: rings of 2-5 nodes with 2-3 ms periodic tasks, 2N goroutines issuing Get/Put through random members for 300 ms while members' predecessor pointers are dropped every 0.2-1.7 ms (Notify re-installs them): afterwards every KV request must have returned and every member must answer lookups; a request still blocked on a lock of a node after 45 s is a violation")
 	r.Assume("bounded time is restated as bounded hops: 2(N+1)+48 proxied hops, or absence of a stack overflow with a 64 MiB stack limit in direct wiring; the 60 s wall-clock watchdog only yields inconclusive")
 	rng := r.Rand("cases")
 	reps := r.Pick(3, 40)
@@ -396,6 +572,30 @@ func main() {
 		}
 		return "crash:" + head
 	})
+	// stress: predecessors dropped and re-learnt under KV traffic
+	srng := r.Rand("stress")
+	ns := r.Pick(8, 96)
+	sb := make([][]scase, min(par, ns))
+	for i := 0; i < ns; i++ {
+		c := scase{Name: fmt.Sprintf("stress-%d", i), Seed: srng.Int63(), N: 2 + srng.Intn(4), NetV: i%2 == 1}
+		if r.WantCase(c.Name) {
+			sb[i%len(sb)] = append(sb[i%len(sb)], c)
+		}
+	}
+	var sargs []any
+	for _, b := range sb {
+		if len(b) > 0 {
+			sargs = append(sargs, b)
+		}
+	}
+	if len(sargs) > 0 {
+		batch.Run(r, "stress", sargs, par, 10*time.Minute, func(inflight, head string) string {
+			if len(head) > 60 {
+				head = head[:60]
+			}
+			return "crash:" + head
+		})
+	}
 	r.Finish()
 }
 
